@@ -576,6 +576,7 @@ def run(ctx):
     # DFXPWriter.write: one <p> per caption of every written language, none skipped (skeleton contract shared with C07)
     import props.C07_write as WS
     WS.prove_write_skeleton(ctx)
+    WS.prove_sami_write_skeleton(ctx)         # (the sync bookkeeping starts afresh for every language)
     # the legacy / single-position DFXP writers merge exactly the runs of IDENTICAL spans (contract shared with C19)
     import props.C19 as C19
     P("base.merge_concurrent_captions", C19.mcc, functions=[C19.merge_concurrent_captions], setup_interp=C19.setup, crosscheck=False)
